@@ -49,8 +49,8 @@ def run(ctx):
         mc_tags = ["c19-dir", "c19-odd"]
         jobs = [lambda: fam.mc(ctx, "c19-dir", "dir", 2, 1, workers=2),
                 lambda: fam.mc(ctx, "c19-odd", "odd", 3, 1, modes=("d",), workers=2),
-                lambda: fam.gen(ctx, "dir", 2, marker="DIR"), lambda: fam.gen(ctx, "randdir", 5, marker="DIR", samples=110),
-                lambda: fam.gen(ctx, "odd", 3), lambda: fam.gen(ctx, "randodd", 6, samples=150)]
+                lambda: fam.gen(ctx, "dir", 2, marker="DIR"), lambda: fam.gen(ctx, "randdir", 6, marker="DIR", samples=500, shards=2),
+                lambda: fam.gen(ctx, "odd", 3), lambda: fam.gen(ctx, "randodd", 7, samples=600, shards=2)]
     else:
         mc_tags = ["MC_InjectDir", "MC_InjectDir2", "MC_Inject_odd"]
         jobs = [lambda: fam.mc_static(ctx, "MC_InjectDir", workers=4, coverage=True), lambda: fam.mc_static(ctx, "MC_InjectDir2", workers=3, coverage=True),
@@ -100,7 +100,7 @@ def run(ctx):
              "runs + odd-file x mode observations); non-trivial = distinct directories that mix at least one unprocessable / unexpected entry with at "
              "least one annotated file; files: every abstract file of <=%d segments over the 7-option 'odd' set + %d random chains over the full set with "
              "grouped / local declarations, double-quoted literals and leading @tag comments" % (
-                 (2, 110, 5, 3, 150) if quick else (3, 600, 7, 4, 1500)) + ("" if quick else "; plus every directory of <=4 entries over the 6 kinds "
+                 (2, 500, 6, 3, 600) if quick else (3, 600, 7, 4, 1500)) + ("" if quick else "; plus every directory of <=4 entries over the 6 kinds "
                                                                                     "annotated, plain, broken, nongo, subdirgo, u_notag"),
         directories=len(dirs), entries_by_kind=kinds_seen, dir_counters=dcount, odd_files=len(files), odd_file_stats=st, file_counters=fcount,
         mc_action_counts=cov_actions, sanity_refuted=refuted,
